@@ -87,17 +87,45 @@ pub struct RunSummary {
     pub states: Vec<u64>,
     pub violation: Option<Violation>,
     pub tainted: bool,
+    pub suppressed: BTreeMap<&'static str, u64>,
     pub trace: Option<(ClusterCfg, Vec<Action>)>,
     pub sample: Option<serde_json::Value>,
 }
 
-pub fn run_one(p: &Profile, seed: u64, index: u64, keep_trace: bool, want_sample: bool) -> RunSummary {
+pub fn run_one(p: &Profile, seed: u64, index: u64, keep_trace: bool, want_sample: bool, focus: Option<&'static str>) -> RunSummary {
+    // a panic of the harness itself (outside the catch_unwind around library calls) must never take the
+    // process down: it is reported as a harness error (exit 2) with the run that caused it
+    match std::panic::catch_unwind(|| run_one_inner(p, seed, index, keep_trace, want_sample, focus)) {
+        Ok(r) => r,
+        Err(_) => {
+            let msg = world::take_last_panic().unwrap_or_else(|| "<panic>".into());
+            RunSummary {
+                index,
+                run_seed: mix(seed, index),
+                actions: 0,
+                sim_time_us: 0,
+                stats: BTreeMap::new(),
+                faults: BTreeMap::new(),
+                trace_hash: 0,
+                states: vec![],
+                violation: Some(Violation { prop: "HARNESS", check: "HARNESS.panic", node: 0, step: 0, detail: format!("harness panicked: {msg}"), sig: "harness_panic".into() }),
+                tainted: false,
+                suppressed: BTreeMap::new(),
+                trace: None,
+                sample: None,
+            }
+        }
+    }
+}
+
+fn run_one_inner(p: &Profile, seed: u64, index: u64, keep_trace: bool, want_sample: bool, focus: Option<&'static str>) -> RunSummary {
     let run_seed = mix(seed, index);
-    let d = Driver::new(p, run_seed);
+    let d = Driver::new(p, run_seed, focus);
     let out_world_stats;
     let trace_hash;
     let states;
     let tainted;
+    let suppressed;
     let outcome = {
         // Driver::run consumes the driver; stats are read from the world it returns
         let (o, w) = d.run_with_world();
@@ -105,6 +133,7 @@ pub fn run_one(p: &Profile, seed: u64, index: u64, keep_trace: bool, want_sample
         trace_hash = w.trace_hash;
         states = w.state_hashes.iter().cloned().collect::<Vec<u64>>();
         tainted = !w.ghost.tainted_terms.is_empty();
+        suppressed = w.suppressed.clone();
         o
     };
     let sample = if want_sample {
@@ -133,14 +162,16 @@ pub fn run_one(p: &Profile, seed: u64, index: u64, keep_trace: bool, want_sample
         states,
         violation: outcome.violation,
         tainted,
+        suppressed,
         trace: if keep { Some((outcome.cluster, outcome.trace)) } else { None },
         sample,
     }
 }
 
 /// Replay a trace on a fresh World. Returns the violation (if any) and the world.
-pub fn replay(cluster: &ClusterCfg, actions: &[Action]) -> (Option<Violation>, World) {
+pub fn replay(cluster: &ClusterCfg, actions: &[Action], focus: Option<&'static str>) -> (Option<Violation>, World) {
     let mut w = World::new(cluster.clone());
+    w.focus = focus;
     for a in actions {
         if let Err(v) = w.apply(a) {
             return (Some(v), w);
@@ -172,6 +203,10 @@ fn parse_args() -> BTreeMap<String, String> {
         }
     }
     m
+}
+
+fn focus_of(args: &BTreeMap<String, String>) -> Option<&'static str> {
+    args.get("focus").map(|s| -> &'static str { Box::leak(s.clone().into_boxed_str()) })
 }
 
 fn env_seed() -> u64 {
@@ -213,7 +248,7 @@ fn cmd_run(args: &BTreeMap<String, String>) -> i32 {
     let spec = profiles::spec(&pid);
     let seed = args.get("seed").and_then(|s| s.parse().ok()).unwrap_or_else(env_seed);
     let index: u64 = args.get("index").and_then(|s| s.parse().ok()).unwrap_or(0);
-    let r = run_one(&spec.profile, seed, index, true, false);
+    let r = run_one(&spec.profile, seed, index, true, false, focus_of(args));
     println!("run {} seed {} actions {} sim_ms {} trace_hash {:x}", index, r.run_seed, r.actions, r.sim_time_us / 1000, r.trace_hash);
     for (k, v) in &r.stats {
         println!("  {k} = {v}");
@@ -285,7 +320,7 @@ fn cmd_determinism(args: &BTreeMap<String, String>) -> i32 {
     let seed = args.get("seed").and_then(|s| s.parse().ok()).unwrap_or_else(env_seed);
     let runs: u64 = args.get("runs").and_then(|s| s.parse().ok()).unwrap_or(200);
     let threads: usize = args.get("threads").and_then(|s| s.parse().ok()).unwrap_or(16);
-    let results = run_batch(&spec.profile, seed, 0, runs, threads, false);
+    let results = run_batch(&spec.profile, seed, 0, runs, threads, false, None);
     let check_replay = args.contains_key("replay");
     for r in &results {
         let mut d = prng::Digest::new();
@@ -303,9 +338,9 @@ fn cmd_determinism(args: &BTreeMap<String, String>) -> i32 {
         // replay each recorded trace and require the identical abstract hash
         let mut bad = 0;
         for i in 0..runs.min(200) {
-            let r = run_one(&spec.profile, seed, i, true, false);
+            let r = run_one(&spec.profile, seed, i, true, false, None);
             let (c, t) = r.trace.as_ref().unwrap();
-            let (v, w) = replay(c, t);
+            let (v, w) = replay(c, t, None);
             if w.trace_hash != r.trace_hash || v.as_ref().map(|x| x.check) != r.violation.as_ref().map(|x| x.check) {
                 println!("REPLAY-DIVERGED run {i}");
                 bad += 1;
@@ -319,7 +354,7 @@ fn cmd_determinism(args: &BTreeMap<String, String>) -> i32 {
     0
 }
 
-pub fn run_batch(p: &Profile, seed: u64, from: u64, to: u64, threads: usize, samples: bool) -> Vec<RunSummary> {
+pub fn run_batch(p: &Profile, seed: u64, from: u64, to: u64, threads: usize, samples: bool, focus: Option<&'static str>) -> Vec<RunSummary> {
     let next = AtomicUsize::new(from as usize);
     let out: Mutex<Vec<RunSummary>> = Mutex::new(Vec::new());
     std::thread::scope(|s| {
@@ -331,7 +366,7 @@ pub fn run_batch(p: &Profile, seed: u64, from: u64, to: u64, threads: usize, sam
                     if i >= to {
                         break;
                     }
-                    let r = run_one(p, seed, i, false, samples && i < from + 2);
+                    let r = run_one(p, seed, i, false, samples && i < from + 2, focus);
                     out.lock().unwrap().push(r);
                 }
             });
@@ -364,7 +399,8 @@ fn cmd_replay(args: &BTreeMap<String, String>) -> i32 {
             return 2;
         }
     };
-    let (v, _w) = replay(&rf.cluster, &rf.actions);
+    let focus: &'static str = Box::leak(rf.property.clone().into_boxed_str());
+    let (v, _w) = replay(&rf.cluster, &rf.actions, Some(focus));
     match v {
         Some(v) if v.check == rf.expected.check => {
             println!("replayed {} actions: {} at step {} on node {}: {}", rf.actions.len(), v.check, v.step, v.node, v.detail);
@@ -405,6 +441,7 @@ fn cmd_check(args: &BTreeMap<String, String>) -> i32 {
         .unwrap_or(if tier == "quick" { spec.quick_runs } else { spec.thorough_runs });
     let max_secs: u64 = args.get("secs").and_then(|s| s.parse().ok()).unwrap_or(if tier == "quick" { 240 } else { 1500 });
     let known = load_known_findings();
+    let focus: &'static str = Box::leak(id.clone().into_boxed_str());
     let t0 = Instant::now();
     println!("raftsim check {id} tier={tier} seed={seed} runs={runs} profile={} threads={threads}", spec.profile.name);
 
@@ -418,6 +455,7 @@ fn cmd_check(args: &BTreeMap<String, String>) -> i32 {
     let mut actions_total = 0u64;
     let mut sim_us_total = 0u64;
     let mut other_prop: BTreeMap<String, u64> = BTreeMap::new();
+    let mut suppressed_total: BTreeMap<String, u64> = BTreeMap::new();
     let mut known_hit: BTreeMap<String, u64> = BTreeMap::new();
     let mut violation: Option<(RunSummary, Violation)> = None;
     let mut harness_error: Option<String> = None;
@@ -427,7 +465,7 @@ fn cmd_check(args: &BTreeMap<String, String>) -> i32 {
     let mut from = 0u64;
     'outer: while from < runs {
         let to = (from + chunk).min(runs);
-        let results = run_batch(&spec.profile, seed, from, to, threads, from == 0);
+        let results = run_batch(&spec.profile, seed, from, to, threads, from == 0, Some(focus));
         for r in results {
             evaluations += 1;
             actions_total += r.actions as u64;
@@ -443,6 +481,9 @@ fn cmd_check(args: &BTreeMap<String, String>) -> i32 {
                 distinct_nontrivial.insert(r.trace_hash);
             }
             states.extend(r.states.iter().cloned());
+            for (k, v) in &r.suppressed {
+                *suppressed_total.entry(k.to_string()).or_insert(0) += v;
+            }
             if let Some(s) = &r.sample {
                 if samples.len() < 2 {
                     samples.push(s.clone());
@@ -480,6 +521,9 @@ fn cmd_check(args: &BTreeMap<String, String>) -> i32 {
     for (k, c) in &other_prop {
         println!("note: {c} runs ended by a monitor of another property: {k}");
     }
+    for (k, c) in &suppressed_total {
+        println!("note: {c} firings of another property's monitor (run continued): {k}");
+    }
     if let Some(e) = &harness_error {
         eprintln!("harness error: {e}");
         return 2;
@@ -492,7 +536,7 @@ fn cmd_check(args: &BTreeMap<String, String>) -> i32 {
         let (cluster, trace) = r.trace.clone().unwrap();
         println!("violation in run {} (run seed {}): {} at step {} on node {}: {}", r.index, r.run_seed, v.check, v.step, v.node, v.detail);
         let budget = if tier == "quick" { 20 } else { 60 };
-        let (min_trace, mv) = minimise::minimise(&cluster, &trace, v, budget);
+        let (min_trace, mv) = minimise::minimise(&cluster, &trace, v, budget, Some(focus));
         println!("minimised {} -> {} actions: {}", trace.len(), min_trace.len(), mv.detail);
         let dir = std::env::var("VERIF_REPLAY_DIR").unwrap_or_else(|_| "/verif/replays".to_string());
         let _ = std::fs::create_dir_all(&dir);
@@ -539,6 +583,7 @@ fn cmd_check(args: &BTreeMap<String, String>) -> i32 {
             "checks_evaluated": checks,
             "probes": probes,
             "ended_by_other_property": other_prop,
+            "other_property_firings_not_ending_the_run": suppressed_total,
             "known_findings_hit": known_hit,
             "budget_exhausted_before_all_runs": timed_out,
             "components": {
@@ -575,7 +620,7 @@ fn cmd_triage(args: &BTreeMap<String, String>) -> i32 {
     let spec = profiles::spec(&pid);
     let seed = args.get("seed").and_then(|s| s.parse().ok()).unwrap_or_else(env_seed);
     let runs: u64 = args.get("runs").and_then(|s| s.parse().ok()).unwrap_or(2000);
-    let results = run_batch(&spec.profile, seed, 0, runs, 16, false);
+    let results = run_batch(&spec.profile, seed, 0, runs, 16, false, focus_of(args));
     let mut classes: BTreeMap<(String, String), (u64, u64, String)> = BTreeMap::new();
     for r in &results {
         if let Some(v) = &r.violation {
